@@ -227,8 +227,13 @@ class PathCtx:
         e = z3.BitVec(name, sym.W)
         self.inputs[name] = e
         v = SInt(e)
-        self.assume(v >= (lo if lo is not None else -(1 << (sym.W - 2))))
-        self.assume(v <= (hi if hi is not None else (1 << (sym.W - 2)) - 1))
+        lo_ = lo if lo is not None else -(1 << (sym.W - 2))
+        hi_ = hi if hi is not None else (1 << (sym.W - 2)) - 1
+        if lo_ > hi_:
+            raise Infeasible()
+        # bounds of a fresh constant are satisfiable by construction: no solver call
+        self._add(e >= sym._bvv(lo_))
+        self._add(e <= sym._bvv(hi_))
         return v
 
     def bool(self, name):
